@@ -1,13 +1,68 @@
 import Driver.Util
 import DiskfsModel.Model.Ranges
+import DiskfsModel.Model.Fat.Emit
+import DiskfsModel.Model.Fat.DirCodec
+import DiskfsModel.Generated.Fat
 open Diskfs Driver
 
 def regionsStr (rs : List Diskfs.Ranges.Region) : String :=
   if rs.isEmpty then "-" else ",".intercalate (rs.map fun r => s!"{r.off}:{r.len}")
+
+namespace Driver.RangesFat
+open Diskfs.Fat
+
+def strName (s : String) : Spec.Name := s.toList.map Char.toNat
+/-- payload of `len` bytes determined by `seed` (the engine generates the same bytes) -/
+def payload (seed len : Nat) : Bytes := (List.range len).map fun i => UInt8.ofNat ((seed + i * 13) % 251 + 1)
+def freezeArr (m : CMap) (n : Nat) : Array Nat := Array.ofFn (n := n) fun i => m i.val
+def ofArr (a : Array Nat) (i : Nat) : Nat := a.getD i 0
+
+def wlog (ws : List Wr) : String :=
+  let l := (nonEmptyWrs ws).map fun w => s!"{w.off}:{w.data.length}"
+  if l.isEmpty then "-" else ",".intercalate l
+
+def geomOf (args : List String) : Option Geom :=
+  let size := argNatD args "size"
+  match (arg args "kind").getD "12" with
+  | "12" => mkGeom12 Generated.Fat.fat12_spc_table size
+  | "16" => mkGeom16 Generated.Fat.fat16_spc_table size
+  | _ => if argNatD args "fix32" == 1 then mkGeom32Fixed Generated.Fat.fat32_clusterBytes_table size (argNatD args "bs")
+         else mkGeom32 Generated.Fat.fat32_clusterBytes_table size (argNatD args "bs")
+
+/-- `ranges.fat`: the write log of Create followed by a call history on the root directory
+    (Model/Fat/Emit.lean), as `off:len` lists, plus the model's own range verdict -/
+def fatOp (args : List String) : String :=
+  match geomOf args with
+  | none => "err"
+  | some g =>
+    let L := Layout.ofGeom g (argNatD args "start") (argNatD args "size")
+    let ops : List FOp := (((arg args "ops").getD "-").splitOn ",").filterMap fun s =>
+      match s.splitOn ":" with
+      | ["c", n] => some (FOp.create (strName n))
+      | ["w", n, off, len, seed] => match off.toNat?, len.toNat?, seed.toNat? with
+        | some o, some l, some sd => some (FOp.writeAt (strName n) o (payload sd l))
+        | _, _, _ => none
+      | ["t", n] => some (FOp.truncate (strName n))
+      | ["d", n] => some (FOp.remove (strName n))
+      | ["r", o, n] => some (FOp.rename (strName o) (strName n))
+      | _ => none
+    let width := L.max + 2
+    let s0 : FState := ⟨fun _ => 0, fun _ => 0, []⟩
+    let (_, acc, ws) := ops.foldl (fun (a : FState × List Nat × List Wr) op =>
+        let r := fstepW eqFold L width a.1 op
+        let arr := freezeArr r.s.m width
+        (⟨ofArr arr, r.s.d, r.s.files⟩, a.2.1 ++ [if r.ok then 1 else 0], a.2.2 ++ r.ws)) (s0, [], [])
+    let all := L.createWrites ++ ws
+    let inside := (nonEmptyWrs all).all fun w => decide (L.start ≤ w.off ∧ w.off + w.data.length ≤ L.start + L.size)
+    let accS := if acc.isEmpty then "-" else ",".intercalate (acc.map toString)
+    s!"create={wlog L.createWrites}\tacc={accS}\tws={wlog ws}\tinside={if inside then 1 else 0}"
+
+end Driver.RangesFat
 
 def main : IO Unit := Driver.runLoop fun op args =>
   match op with
   | "ranges.gpt" =>
     s!"ws={regionsStr (Diskfs.Ranges.gptRegions (argNatD args "lss") (argNatD args "size") (argNatD args "pmbr" == 1))}\tok=1"
   | "ranges.mbr" => s!"ws={regionsStr Diskfs.Ranges.mbrRegions}\tok=1"
+  | "ranges.fat" => Driver.RangesFat.fatOp args
   | _ => "unknown-op"
